@@ -26,7 +26,7 @@ def _alarm(signum, frame):
 def main():
     prop, fin, fout = sys.argv[1], sys.argv[2], sys.argv[3]
     per_case = int(os.environ.get("VERIF_CASE_TIMEOUT", "20"))
-    mod = importlib.import_module("props." + prop.lower())
+    mod = importlib.import_module("props." + prop.lower())  # prop = module name under props/
     import fibertree  # noqa: F401  (fail early and loudly if /repo does not import)
     assert os.path.realpath(fibertree.__file__).startswith(os.path.realpath(REPO)), fibertree.__file__
     cases = json.load(open(fin))
